@@ -7,7 +7,7 @@ import xarray as xr
 from hypothesis import strategies as st
 
 from vlib import blocks, build, gen
-from vlib.oracles import convex_hull, hull_classify
+from vlib.oracles import convex_hull, exact, hull_classify
 from vlib.runner import Sub, Violation
 
 PROPERTY = "C16"
@@ -261,7 +261,7 @@ def check_proj(case, ctx):
     block_diag = float(np.hypot((oe[-1] - oe[0]) / (oe.size - 1), (on[-1] - on[0]) / (on.size - 1)))
     for i in range(res.shape[0]):
         for j in range(res.shape[1]):
-            state, dist = hull_classify((Fraction(float(oe[j])), Fraction(float(on[i]))), hull)
+            state, dist = hull_classify((exact(oe[j], "output grid coordinate"), exact(on[i], "output grid coordinate")), hull)
             if abs(dist) <= 1e-6 * diam or state == "on":
                 continue
             if state == "out":
